@@ -228,9 +228,14 @@ func c11HaltRace(r *Run) {
 			for !s.stopping.Load() && !finished() {
 				s.Yield(0, "op", "local")
 				if lc.LockShared() == 0 {
-					// granted: is a halt in force right now? (no scheduling
-					// point between the grant and this look)
-					if g := liveNow(); g != nil {
+					// granted: is a halt in force right now? On a rollback-journal
+					// database the halt needs SHARED exclusively, so it cannot have
+					// been granted since. (On a WAL database it can: connections
+					// keep SHARED for as long as they are open, the halt takes
+					// PENDING and the WAL locks, and the lock seam yields inside
+					// the request that gave PENDING back - what counts there is
+					// the WAL write lock below.)
+					if g := liveNow(); g != nil && !hh.wal {
 						r.Failf("c11.halt-local-shared", "a local connection was granted SHARED while halt lock id=%d is held by a remote node (%v left)", g.id, time.Until(g.expires))
 					}
 					if hh.wal {
